@@ -100,6 +100,21 @@ CONTRACTS = [
                                   ghost_inv="1 <= k and k <= s.gen and implies(s.term, k < s.gen)")},
     ),
     OpContract(
+        # first timeout and fallback omitted: never() / throw(Exception("Timeout")) through their callee contracts
+        name="timeout_with_mapper/defaults", props=["C17", "C09"], file=OPS + "_timeoutwithmapper.py", func="timeout_with_mapper_",
+        call="timeout_with_mapper_(None, mapper, None)(source)", params={"mapper": "opt:callback:source"},  # the mapper may be omitted
+        sources=("source", "other", "first_timeout"),
+        spec="specs.c17:timeout_with_mapper_defaults",
+        cells={"switched": "bool", "_id": "cell:int", "timer.current": "optdisp"},
+        inv="switched == s.switched and _id[0] == s.gen and s.gen >= 0 and timer.current is not None",
+        # after the end the counter and the flag still mirror the spec: a timeout left over from before is stale or finds the switch made
+        inv_done="switched == s.switched and _id[0] == s.gen", live="not s.term and not s.switched",
+        families={"timeout": dict(spec=("timeout_next", "timeout_error", "timeout_completed"), id="s.gen", once=True,
+                                  inv="my_id == k", inv_done="my_id == k",
+                                  # a timeout left over from before the source's terminal is stale
+                                  ghost_inv="1 <= k and k <= s.gen and implies(s.term, k < s.gen)")},
+    ),
+    OpContract(
         name="timeout/relative", props=["C17"], file=OPS + "_timeout.py", func="timeout_",
         call="timeout_(duetime, other, scheduler)(source)", params={"duetime": "nat", "absolute": "const:False"}, scheduler="scheduler",
         sources=("source", "other"),
@@ -163,5 +178,5 @@ for _c in CONTRACTS:
         _c.late_subscribe = True
     # native runner of their own (timedrun.py: the mapper returns timer(d + 10 for None elements)): replay, thorough cross-check,
     # bounded stand-in on drift
-    if _c.name in ("throttle_with_mapper", "timeout_with_mapper"):
-        _c.runner = ("timedrun.py", _c.name)
+    if _c.name in ("throttle_with_mapper", "timeout_with_mapper", "timeout_with_mapper/defaults"):
+        _c.runner = ("timedrun.py", _c.name.split("/")[0])
